@@ -469,18 +469,24 @@ fn cache_histories(run: &Run, bits: usize, depth: usize, n_inputs: usize, tape: 
 /// output share is compared with what FRESH objects produce for that session alone (state reached
 /// through a history vs. state reached from the initial state).
 fn reuse_histories<VI: Val, VL: Val>(run: &Run, tname: &str, bits: usize, len: usize, tape: &Tape) {
-    let sessions: Vec<(Vec<u8>, [u8; 16], Vec<bool>)> = {
+    let sessions: Vec<(Vec<u8>, Vec<u8>, Vec<bool>)> = {
         let mut v = vec![];
         for c in 0..2u8 {
             for n in 0..2u8 {
                 for x in 0..2u8 {
                     let ctx: Vec<u8> = if c == 0 { b"application A".to_vec() } else { b"application B".to_vec() };
-                    let nonce: [u8; 16] = tape.array(40 + n as u64);
+                    let nonce: Vec<u8> = tape.bytes(40 + n as u64, 16);
                     let input: Vec<bool> = (0..bits).map(|i| (i as u8 + x) % 2 == 0).collect();
                     v.push((ctx, nonce, input));
                 }
             }
         }
+        // two sessions whose context and (variable-length) nonce differ but whose concatenation is the same:
+        // anything keyed by ctx || nonce without framing confuses them
+        let r = tape.bytes(44, 13);
+        let input: Vec<bool> = (0..bits).map(|i| i % 2 == 0).collect();
+        v.push((b"app".to_vec(), [b"-v2".to_vec(), r.clone()].concat(), input.clone()));
+        v.push((b"app-v2".to_vec(), r, input));
         v
     };
     let random: [[u8; 16]; 2] = [tape.array(50), tape.array(51)];
